@@ -390,7 +390,8 @@ class BundleFlattener(ElabPass):
             # Note at this point in elaboration, these Anon-Bundles are the sole remaining place `PortRef`s can hide.
             # They are also the last place where `BundleRef`s will be resolved,
             # although the others just have been, earlier in this elaborator pass.
-            if isinstance(attr, (BundleRef, PortRef)):
+            # A `PortRef` may itself resolve to a `BundleRef`, when the port it refers to is tied to a bundle member.
+            while isinstance(attr, (BundleRef, PortRef)):
                 attr = self.resolve_bundleref(attr)
 
             if isinstance(attr, NoConn):  # Invalid
